@@ -41,6 +41,20 @@ func H_fmtbytes(p []int) {
 		r = catchRedact(func() redact.RedactableString {
 			return redact.Sprintf(string(f), strer{string(s)}, valErr{string(s)}, nil)
 		})
+	// the symbolic bytes followed by a whole marker (a marker as the verb of
+	// whatever directive the bytes start), without and with operands
+	case 3:
+		r = catchRedact(func() redact.RedactableString { return redact.Sprintf(string(f) + "‹") })
+	case 4:
+		r = catchRedact(func() redact.RedactableString { return redact.Sprintf(string(f) + "›") })
+	case 5:
+		r = catchRedact(func() redact.RedactableString {
+			return redact.Sprintf(string(f)+"‹|%v", string(s), 7)
+		})
+	case 6:
+		r = catchRedact(func() redact.RedactableString {
+			return redact.Sprintf(string(f)+"›", redact.Safe(string(s)))
+		})
 	}
 	vAssert(!r.panicked, "C11/no-panic")
 	if r.panicked {
